@@ -50,9 +50,8 @@ def oracle(r, vd):
                 else:
                     vd.add("lost@%s" % name)
     elif t.kind == "zip2":
-        a, b = r.producers
-        m = min(a.i, b.i)
-        exp = list(zip(a.items[:m], b.items[:m]))
+        m = min(p.i for p in r.producers)
+        exp = list(zip(*[p.items[:m] for p in r.producers]))
         got = list(w.delivered["k"])
         if got != exp:
             vd.add("wrong-tuples@%s" % name)
@@ -112,6 +111,7 @@ def templates(tier):
                 out.append(dict(base, template="buffer+timed_window", n=1, timers=True))
                 out.append(dict(base, template="zip-buffer-delay", n=1, timers=True, items=2))
                 out.append(dict(base, template="zip", n=1, items=2 if q else 3))
+                out.append(dict(base, template="zip3", n=1, items=2))
                 out.append(dict(base, template="union-delay", timers=True, items=2))
                 out.append(dict(base, template="union", items=2))
     return out
